@@ -210,7 +210,7 @@ def known_match(pid, cls, known):
 
 
 PROTECTED = ("board", "init", "boot", "rslog", "inflags", "motor", "rstimes", "rspos", "cfg", "start", "sentbytes",
-             "connected", "resolve", "calllog", "rscancel", "rsmargin", "physpos", "rsmanual", "inlevel", "relflags", "intype", "staircase", "relstate", "map", "sign", "stack", "conn", "flashfill", "flashset")
+             "connected", "resolve", "calllog", "rscancel", "rsmargin", "physpos", "rsmanual", "inlevel", "relflags", "intype", "staircase", "relstate", "map", "sign", "stack", "conn", "flashfill", "flashset", "reboot")
 
 
 def shrink_case(spec, impl_exe, model_cmd, case, pred):
@@ -231,6 +231,15 @@ def shrink_case(spec, impl_exe, model_cmd, case, pred):
     except Exception:
         idx = removable
     return build(idx)
+
+
+def replay_meta(case):
+    """the generator's annotations of a case, for the replay file (run-time data is left out)"""
+    m = {k: v for k, v in case.meta.items() if not k.startswith("raw_") and k not in ("corpus",)}
+    try:
+        return json.dumps(m, default=repr, sort_keys=True)
+    except (TypeError, ValueError):
+        return "{}"
 
 
 def run_property(spec, tier, sd, replay, t0):
@@ -306,9 +315,21 @@ def run_property(spec, tier, sd, replay, t0):
 
     if replay:
         with open(replay) as fh:
-            ops = [ln.rstrip("\n") for ln in fh if ln.strip() and not ln.startswith("#")]
-        case = Case("replay", ops, {})
-        r = run_case(spec, impl_exe, model_cmd, case)
+            lines = [ln.rstrip("\n") for ln in fh]
+        ops = [ln for ln in lines if ln.strip() and not ln.startswith("#")]
+        meta = {}
+        for ln in lines:
+            if ln.startswith("#meta "):      # generator annotations the monitor needs (kind of case, expectations)
+                try:
+                    meta = json.loads(ln[6:])
+                except ValueError:
+                    meta = {}
+        case = Case("replay", ops, meta)
+        if meta.get("extra") and hasattr(spec, "extra_replay"):
+            # a finding of the property's second harness (extra_findings): its own driver and oracle
+            r = {"impl": [], "model": [], "diff": None, "findings": spec.extra_replay(ops)}
+        else:
+            r = run_case(spec, impl_exe, model_cmd, case)
         for g in r["impl"]:
             for ln in g:
                 print("impl: " + ln)
@@ -336,7 +357,7 @@ def run_property(spec, tier, sd, replay, t0):
             if km:
                 knowns_seen.setdefault(f.cls, (km, f.msg))
             else:
-                violations.append((f.cls, f.msg, Case("extra", ops, {"noshrink": True})))
+                violations.append((f.cls, f.msg, Case("extra", ops, {"noshrink": True, "extra": True})))
 
     if first_diff is not None:
         case, d = first_diff
@@ -354,7 +375,7 @@ def run_property(spec, tier, sd, replay, t0):
             ops = shrink_case(spec, impl_exe, None, case,
                               lambda r: any(f.cls == cls for f in r["findings"]))
         p = C.write_replay(pid, "violation-%s.ops" % re.sub(r"[^A-Za-z0-9]+", "-", cls),
-                           "# %s: %s\n# case %s\n" % (cls, msg, case.name) + "\n".join(ops) + "\n")
+                           "# %s: %s\n# case %s\n#meta %s\n" % (cls, msg, case.name, replay_meta(case)) + "\n".join(ops) + "\n")
         print("VIOLATION property=%s replay=%s" % (pid, p))
         print("  " + msg[:400])
         rc = 1
